@@ -1202,6 +1202,27 @@ func main() {
 	for i, sq := range seqs {
 		jobs = append(jobs, job{reqs: sq, persistent: i%2 == 1, kind: "exhaustive"})
 	}
+	// 1b. the witnesses of C06_refines_spec_refuted / C06_refuted_at_pinned_commit (model -> impl)
+	{
+		i64 := func(z int64) setval { return setval{Kind: 1, Ty: tI64, Z: z} }
+		set := func(kvs ...kv) request { return request{Op: "Set", Sw: 1, Create: true, Over: true, KVs: kvs} }
+		get1 := request{Op: "Get", Gets: []getsw{{Sw: 1, Keys: []int64{1}}}}
+		withMeta := kv{Key: 1, Val: i64(1), Meta: meta{Cby: 7}}
+		ws := [][]request{
+			{set(kv{Key: 1, Val: i64(1)}), set(kv{Key: 1, Val: setval{Kind: 0}}), get1},
+			{{Op: "Push", Sw: 1, Pairs: []pair{{Key: 1, Vals: []uint32{1}}}}, set(kv{Key: 1, Val: setval{Kind: 2, Sl: []uint32{2}}}), get1},
+			{set(kv{Key: 1, Val: i64(1)}, kv{Key: 2, Val: i64(1)}), {Op: "SlDel", Sw: 1, Pairs: []pair{{Key: 1, Vals: []uint32{1}}}}, {Op: "IsKeyExist", Sw: 1, K: 1}},
+			{set(kv{Key: 2, Val: i64(1)}), {Op: "Inc", Sw: 1, K: 1, Ty: tI64, By: 1, ByU64: 1, Cond: true, CondOp: 1, CondV: 2, CondU: 2}, {Op: "Inc", Sw: 1, K: 1, Ty: tI8, By: 1, ByU64: 1}},
+			{set(withMeta), set(withMeta)},
+			{set(kv{Key: 1, Val: i64(1)}), set(kv{Key: 1, Val: i64(1)})},
+			{{Op: "Push", Sw: 1, Pairs: []pair{{Key: 1, Vals: []uint32{1}}}}, {Op: "SlDel", Sw: 1, Pairs: []pair{{Key: 1, Vals: []uint32{1}}}}},
+			{set(kv{Key: 1, Val: i64(1)}), {Op: "Get", Gets: []getsw{{Sw: 1, Keys: []int64{}}}}},
+		}
+		for i, w := range ws {
+			jobs = append(jobs, job{reqs: w, persistent: i%2 == 0, kind: "witness"})
+			jobs = append(jobs, job{reqs: w, persistent: i%2 == 1, kind: "witness"})
+		}
+	}
 	// 2. random histories of 5..300 requests
 	rng := common.NewRng(args.Seed, "C06")
 	for i := 0; i < nRandom; i++ {
